@@ -36,6 +36,8 @@ struct Session {
     awaiting_ack: VecDeque<(usize, oneshot::Sender<Result<RxPacket, MqttError>>)>,
     subscriptions: VecDeque<(usize, mpsc::UnboundedSender<RxPacket>)>,
     retrasmit_queue: VecDeque<(usize, Bytes)>,
+    // Identifiers of inbound QoS 2 messages answered with PUBREC and not yet released with PUBREL.
+    inbound_unreleased: Vec<u16>,
 }
 
 struct Connection {
@@ -103,6 +105,7 @@ where
         session.awaiting_ack.clear();
         session.subscriptions.clear();
         session.retrasmit_queue.clear();
+        session.inbound_unreleased.clear();
     }
 
     fn validate_packet_size(connection: &Connection, packet: &[u8]) -> Result<(), MqttError> {
@@ -236,9 +239,23 @@ where
                 let qos = publish.qos;
                 let maybe_packet_id = publish.packet_identifier;
 
+                // A QoS 2 PUBLISH whose identifier has not been released yet is a re-delivery:
+                // it is acknowledged again but must not reach the application twice.
+                let is_redelivery = match (qos, maybe_packet_id) {
+                    (QoS::ExactlyOnce, Some(packet_id)) => {
+                        let known = session.inbound_unreleased.contains(&packet_id.get());
+                        if !known {
+                            session.inbound_unreleased.push(packet_id.get());
+                        }
+                        known
+                    }
+                    _ => false,
+                };
+
                 if let Some(subscription_identifier) =
                     publish
                         .subscription_identifier
+                        .filter(|_| !is_redelivery)
                         .map(|subscription_identifier| {
                             NonZero::from(subscription_identifier).get().value() as usize
                         })
@@ -338,6 +355,9 @@ where
             }
             RxPacket::Pubrel(pubrel) => {
                 let packet_id = pubrel.packet_identifier;
+                session
+                    .inbound_unreleased
+                    .retain(|unreleased| *unreleased != packet_id.get());
                 Self::ack::<PubcompReason>(tx, packet_id).await?
             }
             other => {
@@ -425,6 +445,7 @@ where
                     awaiting_ack: VecDeque::new(),
                     subscriptions: VecDeque::new(),
                     retrasmit_queue: VecDeque::new(),
+                    inbound_unreleased: Vec::new(),
                 },
                 connection: Connection {
                     disconnection_timestamp: None,
